@@ -16,6 +16,8 @@ sys.path.insert(0, REPO)          # the working tree is what is executed
 os.environ['PYTHONPATH'] = REPO + os.pathsep + os.environ.get('PYTHONPATH', '')
 
 import common
+import logging
+logging.getLogger('lazy_dataset').setLevel(logging.CRITICAL)
 
 
 def main():
